@@ -134,10 +134,12 @@ _COV = re.compile(r"<(\w+) line (\d+), col \d+ to line \d+, col \d+ of module (\
 
 
 def design_run(out: Outcome, spec: str, cfg: str, *, workers=16, timeout=1800, extra=(), expect_violation=False,
-               label="design"):
+               label="design", coverage=True):
     """Exhaustive (or -simulate, via extra) TLC run of a mechanism / table model.  Records states and
     per-action coverage in the evidence; an invariant violation is returned to the caller."""
-    rc, o, wall = tlc.run_tlc(spec, cfg, workers=workers, timeout=timeout, extra=("-coverage", "1", *extra), heap="8g")
+    # (TLC's coverage statistics of deeply recursive operators can exhaust the heap: MemGuard runs without them)
+    rc, o, wall = tlc.run_tlc(spec, cfg, workers=workers, timeout=timeout,
+                              extra=(("-coverage", "1", *extra) if coverage else tuple(extra)), heap="8g")
     stats = tlc.parse_stats(o)
     cov = {}
     for m in _COV.finditer(o):
